@@ -47,6 +47,10 @@ def base_model(variant='plain'):
     else:
         e0 = EdgeSpec('n0/o1/x', 'n1/o1/u', fp())
     edges = [e0, EdgeSpec('m0/li/x', 'n0/o1/u', fp()), EdgeSpec('n1/o1/x', 'm0/li/u', fp())]
+    if variant == 'parallel':
+        for _ in range(3):
+            fp()         # keep the weights out of an arithmetic progression (distinct sums)
+        edges.append(EdgeSpec('n0/o1/x', 'n1/o1/u', fp()))        # second edge between the same two variables
     return ModelSpec('base', ops, nodes, edges, etp), fp
 
 
@@ -62,6 +66,11 @@ SCENARIOS = {
     # sweep over an edge delay that is realised as an ODE chain (dde_approx=2): rates 2/d that round to one integer
     'edge-delay': dict(map={'d': dict(vars=['delay'], edges=[('n0/o1/x', 'n1/o1/u')])}, variant='edge-delay',
                        values={'d': [F(1), F(11, 10), F(5, 4), F(9, 10)]}, run_kw=dict(dde_approx=2)),
+    # two parallel edges n0 -> n1; the sweep addresses the SECOND one by its index
+    'parallel-edge-index': dict(map={'w': dict(vars=['weight'], edges=[('n0/o1/x', 'n1/o1/u', 1)])}, variant='parallel'),
+    # sweep over a plain (ring-buffer) delay with a fixed step of 1/4: 1 step (neglected by a separate run), 3 and 5 steps
+    'edge-delay-steps': dict(map={'d': dict(vars=['delay'], edges=[('n0/o1/x', 'n1/o1/u')])}, variant='edge-delay',
+                             values={'d': [F(3, 4), F(1, 4), F(5, 4), F(1, 2)]}, ring=True),
 }
 
 
@@ -106,11 +115,14 @@ def job_fn(job):
                         o, vv = v.split('/')
                         nodes[f"{cname(r)}/{n}"].overrides[(o, vv)] = val
             else:
-                for (s, t) in m['edges']:
+                for (s, t, *eidx) in m['edges']:
+                    hits = [i for i, e in enumerate(edges) if e.src == f"{cname(r)}/{s}" and e.tgt == f"{cname(r)}/{t}"]
                     for i, e in enumerate(edges):
-                        if e.src == f"{cname(r)}/{s}" and e.tgt == f"{cname(r)}/{t}":
+                        if i == hits[eidx[0] if eidx else 0]:
                             if m['vars'] == ['delay']:
-                                edges[i] = EdgeSpec(e.src, e.tgt, e.weight, delay=val, template=e.template, var_map=e.var_map)
+                                # a separate run neglects a delay that rounds to less than two steps
+                                dv = None if (sc.get('ring') and round(val / F(1, 4)) < 2) else val
+                                edges[i] = EdgeSpec(e.src, e.tgt, e.weight, delay=dv, template=e.template, var_map=e.var_map)
                             else:
                                 edges[i] = EdgeSpec(e.src, e.tgt, val, delay=e.delay, template=e.template, var_map=e.var_map)
     exp = ModelSpec('top_lvl', base.ops, nodes, edges, base.edge_tpls, note=f"grid_search {job['scenario']} rows={rows}")
@@ -160,6 +172,11 @@ def job_fn(job):
                     # the circuit given as a template path (from_yaml caches templates by path)
                     ct.to_yaml(f"{wd}/gs.yaml")
                     ct_arg = f"{wd}/gs/{ct.name}"
+                if job.get('twice'):
+                    # the caller's inputs dictionary is used for two sweeps in a row (the second one is examined)
+                    grid_search(ct_arg, grid_arg, pmap, step_size=0.25, simulation_time=0.75, outputs=dict(outs),
+                                inputs=inputs, vectorize=job['vectorize'], verbose=False, in_place=False,
+                                float_precision='float64', solver='euler', clear=True)
                 df, ptable = grid_search(ct_arg, grid_arg, pmap, step_size=0.25, simulation_time=0.75, outputs=dict(outs),
                                          inputs=inputs, vectorize=job['vectorize'], verbose=False, in_place=False,
                                          float_precision='float64', solver='euler', clear=False, **sc.get('run_kw', {}))
@@ -175,6 +192,10 @@ def job_fn(job):
                 tn = sc['input'].rsplit('/', 2)
                 ext = {(f"{cname(r)}/{tn[0]}", tn[1], tn[2]): [U[k]] for r in range(rows)}
             plugin = None
+            if sc.get('ring'):
+                from .. import tvdelay
+                plugin = tvdelay.RingBufferPlugin(F(1, 4))
+                k = 3
             if sc.get('run_kw', {}).get('dde_approx'):
                 from .. import tvdelay
                 plugin = tvdelay.ChainPlugin(order_of=lambda e, n_=sc['run_kw']['dde_approx']: n_)
@@ -265,7 +286,7 @@ def run(tier='quick', seed=0, only=None, verbose=False):
     jobs = []
     for sc in SCENARIOS:
         for rows in ((2, 3) if tier == 'quick' else (2, 3, 4, 5)):
-            if sc == 'edge-delay' and rows > 4:
+            if sc in ('edge-delay', 'edge-delay-steps') and rows > 4:
                 continue
             for vec in (True, False):
                 for rev in (False, True):
@@ -273,6 +294,9 @@ def run(tier='quick', seed=0, only=None, verbose=False):
                         continue
                     jobs.append(dict(key=f"grid:{sc}:rows={rows}:rev={rev}|vec={vec}", scenario=sc, rows=rows,
                                      vectorize=vec, reverse=rev))
+    for vec in (True, False):
+        jobs.append(dict(key=f"grid:with-input:rows=2:same-inputs-dict-twice|vec={vec}", scenario='with-input', rows=2,
+                         vectorize=vec, reverse=False, twice=True))
     for sc in ('node-params', 'edge-weight'):
         for rows in (3,) if tier == 'quick' else (2, 3, 4):
             for vec in (True, False):
